@@ -20,6 +20,9 @@ type allOfConstraintCompiler struct {
 	compiledTypes map[string]struct{}
 
 	foundTypes map[string]schema.Type
+
+	// current the type being compiled (see processType), nil for the root schema.
+	current *schema.Schema
 }
 
 // CompileAllOf compile "allOf" rules in root schema, and in all types.
@@ -111,6 +114,14 @@ func (c *allOfConstraintCompiler) extendWith(node schema.Node, name string) {
 		if _, ok := c.foundTypes[n]; !ok {
 			c.foundTypes[n] = t
 		}
+		// The same for the type which inherits: the inherited properties refer
+		// to these names, and its own table of types need not hold them. It is
+		// a copy (see processType), the table of which is private.
+		if c.current.IsCopy() {
+			if _, ok := c.current.TypesList()[n]; !ok {
+				c.current.AddType(n, t)
+			}
+		}
 	}
 
 	fromObject, ok := schem.RootNode().(*schema.ObjectNode)
@@ -171,9 +182,12 @@ func (c *allOfConstraintCompiler) processType(name string) *schema.Schema {
 		}
 	}
 
+	outer := c.current
+	c.current = typ
 	c.processingTypes[name] = struct{}{}
 	c.processSchema(typ)
 	delete(c.processingTypes, name)
+	c.current = outer
 
 	c.compiledTypes[name] = struct{}{}
 
